@@ -16,6 +16,7 @@ import Driver.C19
 import Driver.C12
 import Driver.C18
 import Driver.Sched
+import Driver.C09
 
 open Corerad
 
@@ -31,7 +32,8 @@ def handlers : List (String × (List String → List String → Option Verdict))
   ("vr", Driver.C12.vr),
   ("mon", Driver.C18.mon),
   ("sch6", Driver.Sched.sch6), ("sch7", Driver.Sched.sch7),
-  ("adv6", Driver.Sched.adv6), ("adv7", Driver.Sched.adv7)
+  ("adv6", Driver.Sched.adv6), ("adv7", Driver.Sched.adv7), ("adv9", Driver.Sched.adv7),
+  ("lst", Driver.C09.lst)
 ]
 
 def runLine (line : String) : String :=
